@@ -9,7 +9,7 @@ SPEC = {
     "gen": ["Rotations", "GetHkl"],
     "modules": ["DiffcalcProofs.Props.C03", "DiffcalcProofs.Props.C03Sample", "DiffcalcProofs.Props.C03Sample2", "DiffcalcProofs.Props.C03Sample3",
                 "DiffcalcProofs.Props.C03Sample4", "DiffcalcProofs.Props.C03Sample5", "DiffcalcProofs.Props.C03Sample6", "DiffcalcProofs.Props.C03Sample7",
-                "DiffcalcProofs.Props.C03Sample8", "DiffcalcProofs.Props.C03Sample9", "DiffcalcProofs.Props.C03Sample10", "DiffcalcProofs.Props.C03Assembly", "DiffcalcProofs.Props.C03Detector"],
+                "DiffcalcProofs.Props.C03Sample8", "DiffcalcProofs.Props.C03Sample9", "DiffcalcProofs.Props.C03Sample10", "DiffcalcProofs.Props.C03Assembly", "DiffcalcProofs.Props.C03Detector", "DiffcalcProofs.Props.C03Reference"],
     "theorems": {"DiffcalcProofs.Props.C03": [
         "C03.detFromQaz_complete", "C03.filter_keeps_exact", "C03.hklMatches_exact", "C03.allOrNothing",
         "C03.asin_roots_complete", "C03.acos_roots_complete"],
@@ -28,7 +28,9 @@ SPEC = {
         "DiffcalcProofs.Props.C03Assembly": ["C03.twoSampleDetector_complete", "C03.detSpec_of_position", "C03.decomposition", "C03.bragg_of_fwd",
                                              "C03.forM'_ok_of_all", "C03.detSamp2_qaz_complete"],
         "DiffcalcProofs.Props.C03Detector": ["C03.sign_mul_eq_of_mul_eq", "C03.detFromDelta_complete", "C03.detFromNu_complete", "C03.detRemaining_complete",
-                                             "C03.detSamp2_complete"]},
+                                             "C03.detSamp2_complete"],
+        "DiffcalcProofs.Props.C03Reference": ["C03.refV_entries", "C03.refConChiPhi_complete", "C03.fmec_of_refSpec", "C03.chiAndQaz_complete",
+                                              "C03.refConMuPhi_complete", "C03.refConEtaPhi_complete"]},
     "level": "proof",
     "rule": "all 185 implemented modes: a random physical position P over (-180,180]^6 (constructed to satisfy the void / bisect / omega constraints where the "
             "mode has them), its constraint values read off with independent geometric pseudo-angles, hkl = forward model of P; P must be a regular point "
@@ -45,8 +47,9 @@ SPEC = {
                "is among the candidates of __calc_hkl_to_position, every angle mod 2 pi; through decomposition of the forward model into the detector and sample relations, "
                "bragg_of_fwd (the position's own theta is the Bragg angle computed from the cell), completeness of the detector layers from delta, nu and qaz incl. the sign filter, "
                "twoSampleDetector_complete, and the walk through the nested generator loops; side condition 'no sibling root makes the sample layer raise' is explicit). "
-               "The six reference+two-sample branches and the end-to-end assembly for the reference+two-sample and detector/naz+reference+one-sample families "
-               "are covered by candidate-level correspondence + round-trip oracle only.",
+               "Three of the six reference+two-sample branches are complete (C03Reference: chi+phi, mu+phi, eta+phi given — every solution of the orientation equation "
+               "Z.N_phi.PSI^T.THETA^T = F(qaz) with the two given angles is returned mod 2 pi; the __get_chi_and_qaz read-off recovers chi and qaz). The other three (mu+eta, chi+eta, chi+mu given) "
+               "and the end-to-end assembly for the reference+two-sample and detector/naz+reference+one-sample families are covered by candidate-level correspondence + round-trip oracle only.",
     "search_widen": 4,
 }
 
